@@ -401,7 +401,109 @@ def val_expand(ctx: Ctx) -> RuleResult:
     return r
 
 
+def val_synthseq(ctx: Ctx) -> RuleResult:
+    """Nodes the library creates on its own (argument, return and sub-DAG stub nodes) say is_sequential explicitly.
+
+    The field's default is the environment setting TAWAZI_IS_SEQUENTIAL: a synthesised node that omits the keyword becomes a
+    sequential barrier in an environment whose default is True, whatever the user declared on the nodes they wrote."""
+    r = RuleResult("VAL-SYNTHSEQ")
+    base = ctx.P.classes[ctx.cls_q("ExecNode")]
+    fam = {c.qualname for c in ctx.P.subclasses(base.qualname)}
+    d = base.fields.get("is_sequential")
+    r.require(d is not None, "ExecNode.is_sequential not found")
+    n = 0
+    for f in ctx.funcs():
+        if f.module.name.endswith("_twzsa_control"):
+            continue
+        for call, q in ctx.calls_in(f):
+            target = None
+            if q in fam:
+                init = ctx.P.find_method(ctx.P.classes[q], "__init__")
+                if init is not None:
+                    continue  # the class's own constructor decides (checked where it calls super().__init__)
+                target = q
+            elif isinstance(call.func, ast.Attribute) and call.func.attr == "__init__" and isinstance(call.func.value, ast.Call) \
+                    and dotted(call.func.value.func) == "super" and f.cls is not None and f.cls.qualname in fam and f.name == "__init__":
+                target = f.cls.qualname
+            if target is None or any(k.arg is None for k in call.keywords):
+                continue
+            n += 1
+            kw = next((k for k in call.keywords if k.arg == "is_sequential"), None)
+            r.ob(kw is not None, {"creates": target.split(".")[-1], "in": f.short, "is_sequential": norm_src(kw.value) if kw else None})
+            if kw is None:
+                r.violate(f"{f.short}: a {target.split('.')[-1]} is created without is_sequential", f.loc(call),
+                          "the node takes the environment default (TAWAZI_IS_SEQUENTIAL): with the default True the hidden node is a "
+                          "barrier - independent nodes the user declared non-sequential no longer run concurrently", norm_src(call)[:120])
+    r.require(n >= 3, f"only {n} constructions of library nodes found")
+    return r
+
+
+def val_compose_overlap(ctx: Ctx) -> RuleResult:
+    """compose: the returned references name nodes the composed DAG holds.
+
+    The inputs are left out of the node table under their old id and registered under a new one; the outputs are referenced by
+    their old id. A node that is both an input and an output is therefore referenced under an id the composed DAG does not have
+    (its value reads as None) unless the overlap is refused, or the returned references are re-mapped."""
+    r = RuleResult("VAL-COMPOSE-OVERLAP")
+    f = ctx.method("BaseDAG", "compose")
+    ctor = [n for n in iter_own_nodes(f.node) if isinstance(n, ast.Call) and {"exec_nodes", "return_uxns"} <= {k.arg for k in n.keywords}]
+    r.require(len(ctor) >= 1, "compose: construction of the composed DAG not found")
+    tables = {dotted(next(k.value for k in c.keywords if k.arg == "exec_nodes")) for c in ctor}
+    rets = {dotted(next(k.value for k in c.keywords if k.arg == "return_uxns")) for c in ctor}
+    r.require(len(tables) == 1 and len(rets) == 1 and None not in tables | rets, "compose: node table / returned references are not single names")
+    table, ret = tables.pop(), rets.pop()
+    # ids left out of the table
+    tdef = [n for n in iter_own_nodes(f.node) if isinstance(n, ast.Assign) and dotted(n.targets[0]) == table]
+    r.require(len(tdef) == 1, f"compose: definition of {table} not found")
+    left_out = None
+    for c in ast.walk(tdef[0].value):
+        if isinstance(c, (ast.GeneratorExp, ast.ListComp, ast.DictComp)):
+            for g in c.generators:
+                for t in g.ifs:
+                    if isinstance(t, ast.Compare) and isinstance(t.ops[0], ast.NotIn) and dotted(t.comparators[0]):
+                        left_out = dotted(t.comparators[0])
+    if left_out is None:
+        raise Undecided(f"compose: {table} is not built by leaving the inputs out")
+    # the returned references: built from the aliases the user gave (old ids)?
+    rdef = [n for n in iter_own_nodes(f.node) if isinstance(n, ast.Assign) and dotted(n.targets[0]) == ret]
+    r.require(len(rdef) == 1, f"compose: definition of {ret} not found")
+    rv = rdef[0].value
+    out_param = f.node.args.args[3].arg if len(f.node.args.args) > 3 else "outputs"
+    plain = isinstance(rv, ast.Call) and len(rv.args) == 1 and dotted(rv.args[0]) == out_param
+    if not plain:
+        raise Undecided(f"compose: {ret} is not built directly from '{out_param}' (possibly re-mapped): {norm_src(rv)[:80]}")
+    # the output ids
+    outs = [dotted(n.targets[0]) for n in iter_own_nodes(f.node) if isinstance(n, ast.Assign) and isinstance(n.value, ast.Call)
+            and len(n.value.args) == 1 and dotted(n.value.args[0]) == out_param and n is not rdef[0]]
+    r.require(len(outs) == 1 and outs[0], "compose: output ids not found")
+    out_ids = outs[0]
+    # a refusal that relates the two
+    loopvars: Dict[str, Set[str]] = {}
+    for n in iter_own_nodes(f.node):
+        if isinstance(n, (ast.For, ast.comprehension)):
+            for nm in names_in(n.target):
+                loopvars.setdefault(nm, set()).update(names_in(n.iter))
+    guard = None
+    for i in _raising_ifs(f) + [n for n in iter_own_nodes(f.node) if isinstance(n, ast.If) and any(
+            isinstance(b, ast.Expr) and isinstance(b.value, ast.Call) and (dotted(b.value.func) or "").startswith("_raise") for b in n.body)]:
+        nm = set(names_in(i.test))
+        for x in list(nm):
+            nm |= loopvars.get(x, set())
+        if {left_out, out_ids} <= nm:
+            guard = i
+    r.ob(guard is not None, {"inputs left out of": table, "by": left_out, "returned references from": norm_src(rv),
+                             "overlap refused by": norm_src(guard.test) if guard is not None else None})
+    if guard is None:
+        r.violate(f"BaseDAG.compose: a node given as input and as output is returned under an id the composed DAG does not hold",
+                  f.loc(rdef[0]),
+                  f"'{left_out}' are left out of '{table}' and re-registered under new ids, '{ret}' keeps the old ids and no test "
+                  f"relates '{left_out}' and '{out_ids}': the overlapping output silently reads as None", norm_src(rdef[0]))
+    return r
+
+
 RULES = {
+    "VAL-COMPOSE-OVERLAP": val_compose_overlap,
+    "VAL-SYNTHSEQ": val_synthseq,
     "VAL-MAXC": val_maxc, "VAL-DEBUGDEP": val_debugdep, "VAL-SETUPDEP": val_setupdep, "VAL-SETUPARG": val_setuparg,
     "VAL-DEBUGSETUP": val_debugsetup, "VAL-EXECUTED": val_executed, "VAL-COMPOSE": val_compose,
     "VAL-COMPOSE-ANC": val_compose_anc, "VAL-CONF": val_conf, "VAL-ARGCOUNT": val_argcount, "VAL-EXPAND": val_expand,
